@@ -251,6 +251,11 @@ redis:
 	if c.redis != nil {
 		var v []byte
 		storedTime, expireTime, v = c.redis.Get(ctx, key)
+		if v != nil && !expireTime.After(time.Now()) {
+			// The entry expired while the lookup was on its way (slow
+			// store). It is a miss.
+			v = nil
+		}
 		if v != nil { // hit
 			m, err := unpackCacheMsg(v)
 			if err != nil {
